@@ -114,7 +114,7 @@ def Cfg.Good (cfg : Cfg) : Prop :=
   cfg.notifyOnData = true ∧ cfg.notifyOnOverflow = true ∧ cfg.notifyOnClose = true
 
 theorem ioDataS_inv {cfg : Cfg} {sh : Bool} {x : Sess} (chunk : Bytes) (hg : cfg.Good)
-    (h : InvS sh none x) (hd : x.dead = false) (hc : chunk ≠ []) :
+    (h : InvS sh none x) (hd : x.dead = false) :
     InvS sh (if (ioDataS cfg sh x chunk).2 = .toCallback then some chunk else none) (ioDataS cfg sh x chunk).1 := by
   obtain ⟨g1, g2, g3⟩ := hg
   have hE := h.E; have hI2 := h.I2; have hP := h.P; have hD := h.D; have hH := h.H
@@ -231,14 +231,14 @@ theorem Inv_init : Inv init := by
 theorem upd_other (f : Nat → Sess) {i j : Nat} (x : Sess) (h : j ≠ i) : upd f i x j = f j := by simp [upd, h]
 
 theorem ok_ioData {s : State} {sid : Nat} {chunk : Bytes} (h : ok s (.ioData sid chunk) = true) :
-    (s.sess sid).dead = false ∧ chunk ≠ [] := by
-  simp [ok] at h; exact ⟨h.1, by intro hc; simp [hc] at h⟩
+    (s.sess sid).dead = false := by
+  simpa [ok] using h
 
 theorem step_inv {cfg : Cfg} (hg : cfg.Good) {s : State} (h : Inv s) (st : Step) (hok : ok s st = true) :
     Inv (step cfg s st).1 := by
   cases st with
   | ioData sid chunk =>
-    obtain ⟨hd, hc⟩ := ok_ioData hok
+    have hd := ok_ioData hok
     unfold step
     cases hp : s.ioPend with
     | some _ => simpa [hp] using h
@@ -249,7 +249,7 @@ theorem step_inv {cfg : Cfg} (hg : cfg.Good) {s : State} (h : Inv s) (st : Step)
       rw [hpo] at hs
       by_cases hj : j = sid
       · subst hj
-        have := ioDataS_inv (cfg := cfg) chunk hg hs hd hc
+        have := ioDataS_inv (cfg := cfg) chunk hg hs hd
         simp only [pendO, upd_same]
         split at this <;> simp_all
       · have hj' := h j
